@@ -492,11 +492,16 @@ def _diverging_callable(F, E, t):
             tt = F.ty(a["t"])
             if tt["k"] == "closure":
                 effs = E.summary(tt["def"])
-                return bool(effs) and all(e.exit == "div" for e in effs)
+                # never returns: it ends in the allocation-error path (a cold helper that first recomputes the layout it reports
+                # may, on paper, also unwind out of that computation - it still does not come back with a null pointer)
+                return bool(effs) and all(e.exit != "ret" for e in effs) and any(e.exit == "div" for e in effs)
             if tt["k"] == "fndef":
                 cls, _ = model.classify(tt["def"])
                 if cls == model.DIVERGE:
                     return True
+                if tt["def"] in F.bodies:
+                    effs = E.summary(tt["def"])
+                    return bool(effs) and all(e.exit != "ret" for e in effs) and any(e.exit == "div" for e in effs)
     return False
 
 
